@@ -977,7 +977,9 @@ class Engine:
         raise _Cont()
 
     def s_FunctionDef(self, s, env):
-        env.set(s.name, Closure(s, env, s.name))
+        clo = Closure(s, env, s.name)
+        wrap = getattr(self, "nested_contracts", {}).get(s.name)     # a harness may put a nested function under its own (separately proved) contract
+        env.set(s.name, wrap(clo) if wrap else clo)
 
     def s_Import(self, s, env):
         raise Unsupported("import statement")
@@ -1231,6 +1233,16 @@ class Engine:
             return Builtin("dict.values", lambda eng: STup(list(obj.values()), None, True))
         if name == "keys":
             return Builtin("dict.keys", lambda eng: STup([k if not isinstance(k, tuple) else STup(list(k)) for k in obj], None, True))
+        if name == "pop":
+            # concrete dictionaries with concrete keys only; every path is replayed from the start, so the in-place update is per path
+            def pop(eng, k, *d):
+                hk = eng.hashable(k)
+                if hk in obj:
+                    return obj.pop(hk)
+                if d:
+                    return d[0]
+                raise PyRaise(SExc("KeyError", (k,)))
+            return Builtin("dict.pop", pop)
         raise Unsupported(f"dict method {name}")
 
     def e_Subscript(self, e, env):
